@@ -90,7 +90,12 @@ def _escape(p) -> Escape:
         defs = [n for n in walk_self(comp.node)
                 if isinstance(n, (ast.Assign, ast.AnnAssign))
                 and any(isinstance(t, ast.Name) and t.id == 'scope' for t in (n.targets if isinstance(n, ast.Assign) else [n.target]))]
-        if defs and all(isinstance(d.value, ast.Dict) for d in defs):
+        def empty_or_display(v) -> bool:
+            # a dict display, or `dict()` with no arguments (the empty display by another spelling)
+            return isinstance(v, ast.Dict) or (isinstance(v, ast.Call) and isinstance(v.func, ast.Name) and v.func.id == 'dict'
+                                               and not v.args and not v.keywords and p.resolve_callable(comp, v.func) in ('builtins.dict', None))
+
+        if defs and all(empty_or_display(d.value) for d in defs):
             for n in walk_self(comp.node):
                 if isinstance(n, ast.Subscript) and isinstance(n.value, ast.Name) and n.value.id == 'scope':
                     site_exempt[(comp.qual, ' '.join(short(n, 200).split()))] = \
@@ -1441,12 +1446,19 @@ def r5_side_tables(run):
             if ta is not None:
                 param_attr[prm] = ta
 
+    _alias_cache: Dict[str, Dict[str, ast.AST]] = {}
+
     def table_attr(g: Func, e) -> Optional[str]:
         """Router attribute denoted by expression e inside generator function g."""
         if _self_attr(e) is not None:
             return _self_attr(e)
         if isinstance(e, ast.Name) and g is gen and e.id in param_attr:
             return param_attr[e.id]
+        if isinstance(e, ast.Name):
+            # a local that only names the attribute (`table = self._converters; idx = len(table); table.append(obj)`)
+            al = _alias_cache.setdefault(g.qual, H._attr_aliases(g))
+            if e.id in al and _self_attr(al[e.id]) is not None:
+                return _self_attr(al[e.id])
         return None
 
     # --- generated table name -> position in the generated signature
@@ -1588,9 +1600,16 @@ def r5_side_tables(run):
                       m, '%s: argument %d is %s' % (short(c.func, 30), k, short(cargs[k], 40)), where=m.loc(st.anchor), runtime_witness=W)
     # the lazy stand-in has the generated signature and forwards path/params
     lazy = p.func(ROUTER + '._compile_and_find')
-    lp = lazy.params()[1:]
-    run.check(len(lp) == len(model.gen_params), '_compile_and_find takes the same number of positional parameters as the generated finder',
+    la = lazy.node.args
+    lp = [x.arg for x in la.posonlyargs + la.args][1:]
+    # (it is called exactly like the generated finder, with len(gen_params) positional arguments: a trailing parameter with a
+    #  default that no call site fills is evaluated as omitted)
+    n_required = len(lp) - len(la.defaults)
+    kw_required = [a.arg for a, d in zip(la.kwonlyargs, la.kw_defaults) if d is None]
+    run.check(n_required <= len(model.gen_params) <= len(lp) and not kw_required,
+              '_compile_and_find takes the same number of positional parameters as the generated finder',
               lazy, 'def _compile_and_find(%s)' % ', '.join(lazy.params()), where=lazy.loc())
+    lp = lp[:len(model.gen_params)]
     for st in sites:
         m, c, cargs = st.method, st.call, st.args
         if m is lazy:
@@ -1658,8 +1677,22 @@ def _params_gen_name(p, model: H.CxModel) -> str:
     st = single([x for x in _finder_sites(p, p.cls(ROUTER)) if x.method is f],
                 'call of self.%s (directly or through one same-class helper)' % FINDER_SLOT, f.qual)
     dict_locals = set()
+
+    def fresh_dict(g, v, depth=0) -> bool:
+        # {} / {..}, dict() without arguments, or a call of a function of the tree whose whole body is `return <such a value>`
+        if isinstance(v, ast.Dict):
+            return True
+        if isinstance(v, ast.Call) and not v.args and not v.keywords:
+            t = p.resolve_callable(g, v.func)
+            if isinstance(v.func, ast.Name) and v.func.id == 'dict' and t in ('builtins.dict', None):
+                return True
+            if isinstance(t, Func) and depth < 2 and not t.is_async and not t.decorators:
+                body = [x for x in t.node.body if not (isinstance(x, ast.Expr) and isinstance(x.value, ast.Constant))]
+                return len(body) == 1 and isinstance(body[0], ast.Return) and body[0].value is not None and fresh_dict(t, body[0].value, depth + 1)
+        return False
+
     for n in walk_self(f.node):
-        if isinstance(n, (ast.Assign, ast.AnnAssign)) and isinstance(n.value, ast.Dict):
+        if isinstance(n, (ast.Assign, ast.AnnAssign)) and n.value is not None and fresh_dict(f, n.value):
             for t in (n.targets if isinstance(n, ast.Assign) else [n.target]):
                 if isinstance(t, ast.Name):
                     dict_locals.add(t.id)
@@ -3149,14 +3182,22 @@ def r10_finder_invalidated(run):
               witness=flow.describe_path(cfg, path) if path else None,
               runtime_witness="add('/a/{x}/e'); a lookup; add('/a/{x}') -> find('/a/a') still answers from the stale finder")
     # each store is either a compile result or the lazy stub (a method of the router)
+    def fresh_or_stub(v) -> bool:
+        if isinstance(v, ast.Call) and isinstance(v.func, ast.Attribute) and isinstance(v.func.value, ast.Name) and v.func.value.id == 'self':
+            return p.lookup_method(f.cls.qual, v.func.attr) is not None
+        if isinstance(v, ast.Attribute) and isinstance(v.value, ast.Name) and v.value.id == 'self':
+            return p.lookup_method(f.cls.qual, v.attr) is not None
+        return False
+
     for nid in stores:
         v = cfg.node(nid).ast.value
-        okv = False
-        if isinstance(v, ast.Call) and isinstance(v.func, ast.Attribute) and isinstance(v.func.value, ast.Name) and v.func.value.id == 'self':
-            okv = p.lookup_method(f.cls.qual, v.func.attr) is not None
-        elif isinstance(v, ast.Attribute) and isinstance(v.value, ast.Name) and v.value.id == 'self':
-            okv = p.lookup_method(f.cls.qual, v.attr) is not None
-        run.check(okv, 'the finder slot is set to a fresh compile or to the lazy-compile stub', f, cfg.node(nid).ast)
+        # `self._find = self._compile() if <flag> else self._compile_and_find`: each arm is a store of its own (one obligation per arm,
+        # like the two statements of the if/else spelling)
+        arms = [v.body, v.orelse] if isinstance(v, ast.IfExp) else [v]
+        for arm in arms:
+            run.check(fresh_or_stub(arm), 'the finder slot is set to a fresh compile or to the lazy-compile stub', f,
+                      cfg.node(nid).ast if len(arms) == 1 else '%s [arm %s]' % (short(cfg.node(nid).ast, 100), short(arm, 40)),
+                      where=f.loc(cfg.node(nid).ast))
 
 
 # ---------------------------------------------------------------------------
